@@ -2,6 +2,7 @@
 
 from functools import partial
 from itertools import product
+from math import isnan
 from typing import TYPE_CHECKING, List, Optional, Set, Tuple, Union
 
 import pandas as pd
@@ -38,8 +39,10 @@ def _get_growth(model: Model) -> Tuple[float, str]:
     """
     try:
         if "moma_old_objective" in model.solver.variables:
-            model.slim_optimize()
-            growth = model.solver.variables.moma_old_objective.primal
+            growth = model.slim_optimize()
+            # not a number unless there is an optimal solution to read from
+            if not isnan(growth):
+                growth = model.solver.variables.moma_old_objective.primal
         else:
             growth = model.slim_optimize()
     except SolverError:
